@@ -23,6 +23,7 @@ PROPS["C04"] = {
         "tests": [
             T("TestC04Perm", {"checks": 500, "shards": 4, "env": {"C04_MAXN": 1 << 20}},
               {"checks": 400, "shards": 8, "env": {"C04_MAXN": 1 << 24}}),
+            T("TestC04Interleaved", {"checks": 1500, "shards": 2}, {"checks": 20000, "shards": 8}),
             T("TestC04Table", {"checks": 10000}, {"checks": 40000, "shards": 4}),
             T("TestC04Reject", {"checks": 2000}, {"checks": 50000}),
         ] + [
@@ -91,6 +92,7 @@ PROPS["C14"] = {
         "pkg": "command/log",
         "tests": [T("TestC14JSON", {"checks": 1200, "shards": 2}, {"checks": 8000, "shards": 8}),
                   T("TestC14Unique", {"checks": 800, "shards": 2}, {"checks": 5000, "shards": 8}),
+                  T("TestC14ConcurrentErrors", {"checks": 24, "shards": 4}, {"checks": 400, "shards": 8}),
                   T("TestC14UniqueLarge", {"checks": 30, "shards": 2}, {"checks": 300, "shards": 8})],
     }],
 }
